@@ -54,6 +54,37 @@ def sparse_component_dataset(rng, nmax=6):
     return D
 
 
+def isolated_member_dataset(rng):
+    """a component A -> C -> E -> A that is not all-tieable although E is NEVER ranked together with A or C: the arcs C -> E and
+    E -> A come only from the one-ranked / one-missing penalties (unifying family). x rankings [.., A, C], y rankings [.., C],
+    z rankings [.., E] with x < z < x + y; up to two other elements ranked before"""
+    names = rng.sample(range(1, 9), 5)
+    A, C, E = names[:3]
+    others = names[3:3 + rng.randint(0, 2)]
+    x = rng.randint(1, 2)
+    z = x + rng.randint(1, 2)
+    y = z - x + rng.randint(1, 2)
+    pre = lambda: [[o] for o in others if rng.random() < 0.9]
+    D = [pre() + [[A], [C]] for _ in range(x)] + [pre() + [[C]] for _ in range(y)] + [pre() + [[E]] for _ in range(z)]
+    rng.shuffle(D)
+    return D
+
+
+def two_cycles_dataset(rng):
+    """two Condorcet cycles of different sizes (4 and 3 elements, in either order) one after the other in every ranking: two
+    components that cannot be all tied, so that a bound between their sizes delegates exactly one of them"""
+    names = rng.sample(range(1, 10), 7)
+    big, small = names[:4], names[4:]
+    first, second = (big, small) if rng.random() < 0.5 else (small, big)
+    D = []
+    for i in range(12):
+        a = first[i % len(first):] + first[:i % len(first)]
+        b = second[i % len(second):] + second[:i % len(second)]
+        D.append([[e] for e in a + b])
+    rng.shuffle(D)
+    return D
+
+
 def random_ranking_buckets(rng, ordered):
     r = []
     for e in ordered:
